@@ -32,6 +32,7 @@ class Run(object):
         self.rules = {}            # rule id -> dict(text, obligations, discharged, instances)
         self.violations = []       # dict(rule, construct, message, file, line, detail)
         self.samples = []
+        self.deferred_errors = []
         self.unmodelled = []
         self.notes = []
         self.assumptions = []
@@ -100,6 +101,8 @@ class Run(object):
                 known.append((v, k))
             else:
                 new.append(v)
+        if self.deferred_errors and not new:
+            raise AnalysisError("; ".join(self.deferred_errors))
         lines = []
         for v, k in known:
             lines.append("KNOWN-FINDING: property=%s rule=%s construct=%s %s [%s]"
@@ -178,6 +181,10 @@ def import_rules(run, R, module, repo, want, tier="quick", only=None):
     _IMPORT_DEPTH += 1
     try:
         module.run(repo, sub, tier)
+    except AnalysisError as e:
+        # fail closed, but let violations this check has found itself be reported first (see finish)
+        run.deferred_errors.append("imported rules %s: %s" % (sorted(want), e))
+        return None
     finally:
         _IMPORT_DEPTH -= 1
     for v in sub.violations:
